@@ -241,6 +241,20 @@ theorem ipglob_exact (s : List Char) (hv : validGlob s = true) :
   have : ¬ lo > hi := by omega
   simp [ipGlob, h1, this, g1, setGlob, g3]
 
+/-- assigning `.glob = s` on an existing `IPGlob`: same result as constructing it; an invalid
+    string is rejected with AddrFormatError before anything is assigned -/
+theorem set_glob_exact (s : List Char) :
+    (validGlob s = true → ∃ lo hi g, globToIptuple s = .ok (lo, hi) ∧ setGlob s = .ok ⟨lo, hi, g⟩ ∧
+      validGlob g = true ∧ globToIptuple g = .ok (lo, hi)) ∧
+    (¬ GlobGrammar s → setGlob s = .error .addrFormat) := by
+  constructor
+  · intro hv
+    obtain ⟨lo, hi, h1, _, _, _, _⟩ := glob_denotes s hv
+    obtain ⟨g, g1, g2, g3⟩ := single_when_shaped s lo hi hv h1
+    exact ⟨lo, hi, g, h1, by simp [setGlob, h1, g1], g2, g3⟩
+  · intro h
+    simp [setGlob, (invalid_glob_rejected s h).1]
+
 example : ipGlob "10.0.0-255.*".toList = .ok ⟨167772160, 167837695, "10.0.*.*".toList⟩ := by decide +kernel
 
 /-! ## nmap target specifications -/
